@@ -455,6 +455,11 @@ class _Run:
             self.expr(e.slice, env)
             if isinstance(e.slice, ast.Slice):
                 return shallow(b)
+            # library model (networkx): G.nodes[n] / G.edges[u, v] / G.adj[n] are attribute dictionaries the graph created itself - never an
+            # object the caller passed in (add_node(n, **attrs) copies the attributes into it)
+            if isinstance(e.value, ast.Attribute) and e.value.attr in ("nodes", "edges", "adj", "succ", "pred", "_node", "_adj") \
+                    and self.expr(e.value.value, env).self_o == frozenset([FRESH]):
+                return Val()
             return elem(b)
         if isinstance(e, ast.Slice):
             for x in (e.lower, e.upper, e.step):
